@@ -1243,7 +1243,9 @@ class BaseRequest:
         url = self.url
         host = self.host_url
         assert url.startswith(host)
-        url = url[len(host) :]
+        # a request line cannot go without a target: an empty path is sent as
+        # "/" (RFC 7230 5.3.1)
+        url = url[len(host) :] or "/"
         parts = [bytes_(f"{self.method} {url} {self.http_version}")]
 
         # acquire body before we handle headers so that
